@@ -540,7 +540,7 @@ class Contracts:
                                           "library called HeaderProtection.remove(packet=%d bytes, offset=%d): %s, not rejected by the C code"
                                           % (len(packet), encrypted_offset, bad)))
                 elif self._ref is not None:
-                    if tuple(out) != tuple(self._ref.remove(packet, encrypted_offset)):
+                    if (out[0], out[1] & 0xFFFFFFFF) != tuple(self._ref.remove(packet, encrypted_offset)):  # sign of a 4-byte pn is C02/C17's subject
                         book.breaches.append(("state:HeaderProtection.remove:result-differs-from-reference",
                                               "in-contract HeaderProtection.remove(%d, %d) differs from the independent implementation"
                                               % (len(packet), encrypted_offset)))
